@@ -12,6 +12,10 @@
   (a), (b), (c), (d) need no well-formedness: they are stated with the actual results of `keyLt`.
   Well-formedness (`Loc.WF`) is what makes `keyLt` total and `≤` transitive (C08); it is used for
   the `Pairwise`/`keyLe` form of (a) and for the exhaustiveness theorem `sorted_or_first_descent`.
+
+  (d) is about the records the checker cannot key (`KeyError` from the key function): the ones
+  lacking a coordinate column AND the ones whose start / end position is a text that is not a
+  number.  Both are skipped.
 -/
 import MafModel.Props.C08
 open Py Model
@@ -154,7 +158,25 @@ theorem unsorted_never (c : Checker) (h : c.order.sortable = false) (rs : List L
   | cons r rs ih =>
     rw [checkAll_cons_ok rs (add_unsortable r h), ih { c with last := some r } h]
 
-/-! ## (d) records without coordinates are yielded, and neither cause nor mask an error -/
+/-! ## (d) records that cannot be keyed are yielded, and neither cause nor mask an error
+
+  "Cannot be keyed" = the key function raises `KeyError` (`Loc.unkeyable o cs l`,
+  `Lemmas/SortOrderLemmas.lean`): a coordinate column is missing, OR — the chromosome being keyable —
+  the start or end position is a text that is not a number (`unkeyable_iff`).  The checker skips
+  exactly these records. -/
+
+/-- d. which records the checker cannot key, on their own columns -/
+theorem unkeyable_iff (o : Order) (cs : List Text) (l : Loc) :
+    l.unkeyable o cs = true ↔
+      l.hasCoords = false ∨
+        ((cs = [] ∨ ∃ s, l.chrName = some s ∧ s ∈ cs) ∧
+          (l.start.posOk = false ∨ l.stop.posOk = false)) :=
+  Loc.unkeyable_iff_cols
+
+/-- d. in terms of the key function: `KeyError` -/
+theorem unkeyable_iff_keyError (o : Order) (cs : List Text) (l : Loc) :
+    l.unkeyable o cs = true ↔ mkKey o cs l = .error .key :=
+  Loc.unkeyable_iff
 
 /-- the checker's verdict is the one it gives on the records that have coordinates, and what it
     yields restricts to what it yields there -/
@@ -177,29 +199,48 @@ theorem skip_aux (c : Checker) (hs : c.order.sortable = true) (rs : List Loc) :
         exact ⟨rfl, rfl⟩
       | ok c' =>
         have hs' : c'.order.sortable = true := by
-          have : c'.order = c.order := by
-            unfold Checker.add at ha
-            simp only [hs, Bool.not_true, Bool.false_eq_true, if_false] at ha
-            repeat' split at ha
-            all_goals first | cases ha; rfl | cases ha
-          rw [this]; exact hs
+          rw [(add_order_contigs ha).1]; exact hs
         rw [checkAll_cons_ok _ ha, checkAll_cons_ok _ ha]
         obtain ⟨h1, h2⟩ := ih c' hs'
         refine ⟨h1, ?_⟩
         simp only [List.filter_cons_of_pos (p := (·.hasCoords)) (a := r) (by simp [hc])]
         rw [h2]
 
-/-- d. For every checker (any order, any remembered record) and every input:
-    1. the error (or its absence) is exactly that of the input restricted to the records that
-       have coordinates — records without coordinates neither cause nor mask an ordering error;
-    2. the records yielded, restricted to those with coordinates, are exactly the ones yielded
-       from the restricted input;
-    3. the yielded records are a prefix of the input (records without coordinates are yielded in
-       place);
+/-- d. For every checker (any order, any remembered record) and every input, with
+    `keyable r := !r.unkeyable c.order c.contigs` (the key function does not raise `KeyError`):
+    1. the error (or its absence) is exactly that of the input restricted to the keyable records —
+       un-keyable records (no coordinates, or a non-numeric position text) neither cause nor mask
+       an ordering error;
+    2. the records yielded, restricted to the keyable ones, are exactly the ones yielded from the
+       restricted input;
+    3. the yielded records are a prefix of the input (un-keyable records are yielded in place);
     4. without error the whole input is yielded;
-    5. on error the yielded prefix ends right before a record that has coordinates (the
-       offending one): records without coordinates before it were all yielded. -/
+    5. on error the yielded prefix ends right before a keyable record (the offending one) and the
+       order is a sortable one: un-keyable records before it were all yielded. -/
 theorem skip_unkeyable (c : Checker) (rs : List Loc) :
+    (checkAll c rs).2 = (checkAll c (rs.filter (fun r => !r.unkeyable c.order c.contigs))).2 ∧
+    (checkAll c rs).1.filter (fun r => !r.unkeyable c.order c.contigs) =
+      (checkAll c (rs.filter (fun r => !r.unkeyable c.order c.contigs))).1 ∧
+    (checkAll c rs).1 <+: rs ∧
+    ((checkAll c rs).2 = none → (checkAll c rs).1 = rs) ∧
+    (∀ e, (checkAll c rs).2 = some e →
+      ∃ r rest, rs = (checkAll c rs).1 ++ r :: rest ∧ c.order.sortable = true ∧
+        r.unkeyable c.order c.contigs = false) := by
+  refine ⟨?_, ?_, checkAll_fst_prefix c rs, checkAll_fst_of_none c rs, ?_⟩
+  · cases hs : c.order.sortable with
+    | false => rw [unsorted_never c hs, unsorted_never c hs]
+    | true => exact (checkAll_filter_keyable c hs rs).1
+  · cases hs : c.order.sortable with
+    | false => rw [unsorted_never c hs, unsorted_never c hs]
+    | true => exact (checkAll_filter_keyable c hs rs).2
+  · intro e he
+    obtain ⟨r, rest, h1, h2, h3⟩ := checkAll_error_split_keyable c rs e he
+    exact ⟨r, rest, h1, h2, Loc.unkeyable_false_iff.2 h3⟩
+
+/-- d. the special case of records without coordinate columns (the statement `skip_unkeyable` had
+    before a non-numeric position text became a `KeyError`; it still holds, with the filter
+    "has its coordinate columns" in place of "can be keyed") -/
+theorem skip_no_coords (c : Checker) (rs : List Loc) :
     (checkAll c rs).2 = (checkAll c (rs.filter (·.hasCoords))).2 ∧
     (checkAll c rs).1.filter (·.hasCoords) = (checkAll c (rs.filter (·.hasCoords))).1 ∧
     (checkAll c rs).1 <+: rs ∧
@@ -214,34 +255,64 @@ theorem skip_unkeyable (c : Checker) (rs : List Loc) :
     | false => rw [unsorted_never c hs, unsorted_never c hs]
     | true => exact (skip_aux c hs rs).2
 
-/-- a record without coordinates leaves the checker untouched (in particular the remembered
-    record), for a sortable order -/
+/-- an un-keyable record leaves the checker untouched (in particular the remembered record), for a
+    sortable order -/
+theorem add_unkeyable (hs : c.order.sortable = true) (r : Loc)
+    (h : r.unkeyable c.order c.contigs = true) : c.add r = .ok c :=
+  add_skip_unkeyable hs (Loc.unkeyable_iff.1 h)
+
+/-- ... and only an un-keyable record does: for a sortable order `add` leaves the checker
+    untouched iff the record cannot be keyed — unless the record is the remembered one itself -/
+theorem add_eq_self_iff (hs : c.order.sortable = true) (r : Loc) (hne : c.last ≠ some r) :
+    c.add r = .ok c ↔ r.unkeyable c.order c.contigs = true := by
+  constructor
+  · intro ha
+    cases hu : r.unkeyable c.order c.contigs with
+    | true => rfl
+    | false =>
+      have := add_ok_of_keyable hs (Loc.unkeyable_false_iff.1 hu) ha
+      have hl : c.last = some r := by rw [this]
+      exact (hne hl).elim
+  · exact add_unkeyable hs r
+
+/-- a record without coordinates leaves the checker untouched -/
 theorem add_no_coords (hs : c.order.sortable = true) (r : Loc) (h : r.hasCoords = false) :
     c.add r = .ok c := add_skip hs h
 
-/-- d+a. with records lacking coordinates interspersed: everything is yielded iff the keys of the
-    records that have coordinates are non-decreasing -/
+/-- a record whose start or end position is a text that is not a number leaves the checker
+    untouched when there is no contig list (or its chromosome is in the list): it is no longer a
+    `ValueError` that stops the iteration -/
+theorem add_bad_position (hs : c.order.sortable = true) (r : Loc)
+    (hc : c.contigs = [] ∨ ∃ s, r.chrName = some s ∧ s ∈ c.contigs)
+    (hp : r.start.posOk = false ∨ r.stop.posOk = false) : c.add r = .ok c :=
+  add_unkeyable hs r (Loc.unkeyable_iff_cols.2 (.inr ⟨hc, hp⟩))
+
+/-- d+a. with un-keyable records interspersed: everything is yielded iff the keys of the records
+    that can be keyed are non-decreasing -/
 theorem all_iff_sorted_skip (hs : c.order.sortable = true) (hl : c.last = none)
-    (hk : Keyed c.order c.contigs (rs.filter (·.hasCoords)) ks) :
+    (hk : Keyed c.order c.contigs (rs.filter (fun r => !r.unkeyable c.order c.contigs)) ks) :
     checkAll c rs = (rs, none) ↔
       ∀ i (h : i + 1 < ks.length), keyLt ks[i + 1] (ks[i]'(by omega)) = .ok false := by
   rw [checkAll_eq_iff_none, (skip_unkeyable c rs).1, ← checkAll_eq_iff_none,
     all_iff_sorted hs hl hk]
 
-/-- d+b. with records lacking coordinates interspersed: a first descent among the keyed records
-    is reported as `ValueError`; the yielded records are a prefix of the input that contains
-    exactly the first `i+1` keyed records and stops right before the offending record -/
+/-- d+b. with un-keyable records interspersed: a first descent among the keyed records is reported
+    as `ValueError`; the yielded records are a prefix of the input that contains exactly the first
+    `i+1` keyed records and stops right before the offending record, which is a keyable one -/
 theorem prefix_skip (hs : c.order.sortable = true) (hl : c.last = none)
-    (hk : Keyed c.order c.contigs (rs.filter (·.hasCoords)) ks) (i : Nat) (hi : i + 1 < ks.length)
+    (hk : Keyed c.order c.contigs (rs.filter (fun r => !r.unkeyable c.order c.contigs)) ks)
+    (i : Nat) (hi : i + 1 < ks.length)
     (hsorted : ∀ j (hj : j < i), keyLt (ks[j + 1]'(by omega)) (ks[j]'(by omega)) = .ok false)
     (hdesc : keyLt ks[i + 1] (ks[i]'(by omega)) = .ok true) :
     (checkAll c rs).2 = some .value ∧
-    (checkAll c rs).1.filter (·.hasCoords) = (rs.filter (·.hasCoords)).take (i + 1) ∧
-    ∃ r rest, rs = (checkAll c rs).1 ++ r :: rest ∧ r.hasCoords = true := by
+    (checkAll c rs).1.filter (fun r => !r.unkeyable c.order c.contigs) =
+      (rs.filter (fun r => !r.unkeyable c.order c.contigs)).take (i + 1) ∧
+    ∃ r rest, rs = (checkAll c rs).1 ++ r :: rest ∧ r.unkeyable c.order c.contigs = false := by
   have h := prefix_at_first_descent hs hl hk i hi hsorted hdesc
   obtain ⟨h1, h2, -, -, h5⟩ := skip_unkeyable c rs
   rw [h] at h1 h2
-  exact ⟨h1, h2, h5 _ h1⟩
+  obtain ⟨r, rest, h6, -, h7⟩ := h5 _ h1
+  exact ⟨h1, h2, r, rest, h6, h7⟩
 
 /-! ## non-vacuity: concrete inputs -/
 
@@ -252,6 +323,10 @@ private def l1 : Loc := { chr := .str "chr1".toList, start := .int 5, stop := .i
 private def l2 : Loc := { chr := .str "chr1".toList, start := .str "10".toList, stop := .int 12 }
 private def l3 : Loc := { chr := .str "chr2".toList, start := .int 1, stop := .int 2 }
 private def noCoords : Loc := { hasCoords := false }
+/-- start position `"abc"`: not a number -/
+private def badPos : Loc := { chr := .str "chr1".toList, start := .str "abc".toList, stop := .int 12 }
+/-- the same on a chromosome the contig list does not have -/
+private def badPosX : Loc := { chr := .str "chrX".toList, start := .str "abc".toList, stop := .int 12 }
 private def k1 : Key := { chr := .int 0, start := .int 5, stop := .int 9 }
 private def k2 : Key := { chr := .int 0, start := .int 10, stop := .int 12 }
 private def k3 : Key := { chr := .int 1, start := .int 1, stop := .int 2 }
@@ -281,6 +356,22 @@ example : checkAll ck [noCoords, l3, noCoords, l1] = ([noCoords, l3, noCoords], 
 example : checkAll ck [noCoords, l1, noCoords, l3] = ([noCoords, l1, noCoords, l3], none) :=
   (all_iff_sorted_skip (c := ck) (ks := [k1, k3]) rfl rfl (by decide)).2
     ((adjChain_iff_getElem NotDesc [k1, k3]).1 (by decide))
+
+/-- (d): a record with a non-numeric position text is un-keyable (it HAS its coordinate columns),
+    is yielded, does not stop the iteration and does not reset the remembered record -/
+example : badPos.hasCoords = true ∧ badPos.unkeyable ck.order ck.contigs = true ∧
+    ck.add badPos = .ok ck ∧
+    checkAll ck [l1, badPos, l3] = ([l1, badPos, l3], none) ∧
+    checkAll ck [badPos, l3, badPos, l1] = ([badPos, l3, badPos], some .value) := by
+  refine ⟨rfl, by decide, add_bad_position (c := ck) rfl badPos
+    (.inr ⟨"chr1".toList, by decide, by decide⟩) (.inl (by decide)), ?_, by decide⟩
+  exact (all_iff_sorted_skip (c := ck) (ks := [k1, k3]) rfl rfl (by decide)).2
+    ((adjChain_iff_getElem NotDesc [k1, k3]).1 (by decide))
+
+/-- (d): the contig lookup comes before the positions: on a chromosome the contig list does not
+    have, the same record is keyable-and-failing (`ValueError`), not skipped -/
+example : badPosX.unkeyable ck.order ck.contigs = false ∧
+    checkAll ck [l1, badPosX, l3] = ([l1], some .value) := by decide
 
 end examples
 
